@@ -227,9 +227,10 @@ def main(chk):
             model_only.append(r)
     chk.cov["input_distribution"] = fam
     chk.cov["rule"] = ("12 chain contexts ({'', &, ~, =} x {., @, $}) x call forms (property call, literal call, variable call) x receivers "
-                       "(arr, arr with a nil element, int, range, str, obj, map, iterator literal) x ALL behaviour vectors {value, nil, raise}^3 of a "
+                       "(arr, arr with a nil element, int, range, str, obj, map, iterator literal) x ALL behaviour vectors {value, nil, raise}^3 (+ vectors with a callee that raises StopIterErr) of a "
                        "table-driven callee that prints its argument; list chains with and without a chain argument; the three forms side by "
-                       "side on arrays of objects (list), on one object (scalar) and with `+` (reduce); digest into arr/obj/map. Expected calls "
+                       "side on arrays of objects (list), on one object (scalar) and with `+` (reduce); digest into arr/obj/map (also with overlapping keys and with nothing collected); the chain on a continuation line after comments; receivers of one Go type "
+                       "but different prototypes; receivers that cannot be iterated. Expected calls "
                        "and result from the property's per-element rules (Python oracle) and from PanCore. The lonely reduce chain is compared "
                        "per form only (its receiver differs between the forms, as the property says).")
     for i in (0, len(progs) // 2, len(progs) - 1):
